@@ -338,7 +338,7 @@ static void _parent_remove_child(struct iwpool *parent, struct iwpool *child) {
       if (p) {
         p->next = c->next;
       } else {
-        parent->children = 0;
+        parent->children = c->next;
       }
       break;
     }
